@@ -57,14 +57,6 @@ Proof.
   constructor; [intros []|constructor].
 Qed.
 
-Lemma meas_wl_nodup nq nc t c : t < nq -> NoDup (range 0 (t + 1) ++ range (c + nq) (nq + nc)).
-Proof.
-  intro H. unfold range.
-  replace (t + 1 - 0) with (t + 1) by lia.
-  assert (E : seq 0 (t + 1) ++ seq (c + nq) (nq + nc - (c + nq)) =
-              filter (fun v => (v <? t + 1) || (c + nq <=? v)) (seq 0 (t + 1 + (nq + nc - (c + nq)) + (c + nq)))).
-  { (* simpler: prove NoDup directly *) Abort.
-
 Lemma NoDup_app_disj {A} (a b : list A) :
   NoDup a -> NoDup b -> (forall x, In x a -> ~ In x b) -> NoDup (a ++ b).
 Proof.
